@@ -24,8 +24,10 @@ import (
 	"github.com/rpcpool/yellowstone-faithful/accum"
 	"github.com/rpcpool/yellowstone-faithful/ipld/ipldbindcode"
 	"github.com/rpcpool/yellowstone-faithful/iplddecoders"
+	old_faithful_grpc "github.com/rpcpool/yellowstone-faithful/old-faithful-proto/old-faithful-grpc"
 	"github.com/rpcpool/yellowstone-faithful/third_party/solana_proto/confirmed_block"
 	"github.com/rpcpool/yellowstone-faithful/tooling"
+	"github.com/rpcpool/yellowstone-faithful/zzverif/fixture"
 	"github.com/rpcpool/yellowstone-faithful/zzverif/vt"
 	"google.golang.org/protobuf/proto"
 )
@@ -369,5 +371,83 @@ func TestVerifC14(t *testing.T) {
 	}
 	for _, o := range all {
 		out.Emit(o)
+	}
+}
+
+// TestVerifC14Server: the rewards payload of a block through the real getBlock handlers (gRPC and JSON-RPC) of a loaded
+// epoch - the consumer of LoadDataFromDataFrames that answers clients. A block whose rewards payload is complete must be
+// answered with exactly the archived rewards; a block whose rewards payload misses a continuation frame (linked, not in the
+// CAR) must be answered with an error, not with other / no rewards.
+func TestVerifC14Server(t *testing.T) {
+	out := vt.Out(t)
+	defer out.Close()
+	type plan struct{ frames, drop int }
+	plans := []plan{{12, 0}, {12, 7}, {3, 2}, {1, 0}, {6, 1}, {30, 29}}
+	spec := fixture.EpochSpec{Epoch: 1, Seed: vt.Seed() + 1400, Fanout: 5, Trailer: true}
+	parent := uint64(431999)
+	for k, p := range plans {
+		slot := uint64(432000 + 2 + 2*k)
+		spec.Blocks = append(spec.Blocks, fixture.BlockSpec{Slot: slot, Parent: parent, Blocktime: int64(1700000000 + k), RewardsFrames: p.frames, DropRewardsFrame: p.drop,
+			Entries: []fixture.EntrySpec{{Txs: []fixture.TxSpec{{SigID: k + 1, Accounts: []int{1}, DataFrames: 1, MetaFrames: 1}}}}})
+		parent = slot
+	}
+	l := vBuildAndLoad(t, spec, false, vCache(t))
+	multi := NewMultiEpoch(&Options{EpochSearchConcurrency: 2})
+	multi.AddEpoch(1, l.epoch)
+	handler := newMultiEpochHandler(multi, nil)
+	for k, p := range plans {
+		bt := l.built.Blocks[k]
+		fault := map[string]any{"kind": "none", "i": 0, "j": 0}
+		if p.drop > 0 {
+			fault = map[string]any{"kind": "drop", "i": p.drop, "j": 0}
+		}
+		base := c14Obs{Case: 1, N: p.frames, Fan: 5, Fault: fault, Checksum: "crc64", Side: "rewards", Size: len(bt.Rewards)}
+		{
+			o := base
+			o.Via = "getBlock-grpc"
+			var resp *old_faithful_grpc.BlockResponse
+			var err error
+			if pm := vt.Guard(func() {
+				resp, err = multi.GetBlock(context.Background(), &old_faithful_grpc.BlockRequest{Slot: bt.Spec.Slot})
+			}); pm != "" {
+				o.Outcome, o.Detail = "panic", pm
+			} else if err != nil {
+				o.Outcome, o.Detail = "error", err.Error()
+			} else if bytes.Equal(resp.Rewards, bt.Rewards) {
+				o.Outcome = "original"
+			} else {
+				o.Outcome, o.Detail = "different", fmt.Sprintf("answered with %d bytes of rewards, archived %d", len(resp.Rewards), len(bt.Rewards))
+			}
+			out.Emit(o)
+		}
+		{
+			o := base
+			o.Via = "getBlock-json"
+			_, body, pm := vCall(handler, fmt.Sprintf(`{"jsonrpc":"2.0","id":1,"method":"getBlock","params":[%d,{"encoding":"base64","maxSupportedTransactionVersion":0}]}`, bt.Spec.Slot))
+			var resp struct {
+				Result map[string]any `json:"result"`
+				Error  map[string]any `json:"error"`
+			}
+			switch {
+			case pm != nil:
+				o.Outcome, o.Detail = "panic", fmt.Sprint(pm)
+			case json.Unmarshal([]byte(body), &resp) != nil || resp.Error != nil || resp.Result == nil:
+				o.Outcome, o.Detail = "error", fmt.Sprintf("%.200s", body)
+			default:
+				got, _ := resp.Result["rewards"].([]any)
+				same := len(got) == len(bt.RewardList)
+				for i := 0; same && i < len(got); i++ {
+					m, _ := got[i].(map[string]any)
+					lam, _ := m["lamports"].(float64)
+					same = m["pubkey"] == bt.RewardList[i].Pubkey && int64(lam) == bt.RewardList[i].Lamports
+				}
+				if same {
+					o.Outcome = "original"
+				} else {
+					o.Outcome, o.Detail = "different", fmt.Sprintf("answered with %d rewards, archived %d", len(got), len(bt.RewardList))
+				}
+			}
+			out.Emit(o)
+		}
 	}
 }
